@@ -39,6 +39,14 @@ F1X(f) == <<0, Pow2(f.rb)>> \o f.posts
 Floor1Fit(s, f, salt) == LET u == Unwrap(F1X(f), Floor1Raw(s, f, salt), f.mult) IN [i \in 1..Len(u.Y) |-> IF u.U[i] THEN u.Y[i] ELSE u.Y[i] + 32768]
 Floor1Curve(s, f, salt, n) == LET u == Unwrap(F1X(f), Floor1Raw(s, f, salt), f.mult) IN Curve(F1X(f), u.Y, u.U, f.mult, n)
 
+\* floor 0, channel in use (spec 6.2.2): amplitude, book number, then ceil(order / dim) vectors of that book (the LSP coefficients; their values are float
+\* arithmetic and not modelled, the reading order is)
+Floor0Bits(s, f, salt) ==
+  LET nb == Len(f.fbooks)  bn == salt % nb  bk == f.fbooks[bn + 1]  d == s.books[bk + 1].dim  nvec == (f.order + d - 1) \div d
+      amp == 1 + (salt % (Pow2(f.ampbits) - 1))
+  IN << <<amp, f.ampbits>>, <<bn, ILog(nb)>> >> \o Cat([v \in 1..nvec |-> Word(s, bk, Pick(s, bk, salt + 7 * v))])
+FloorBits(s, f, salt) == IF f.type = 0 THEN Floor0Bits(s, f, salt) ELSE Floor1Bits(s, f, salt)
+FloorUnused(f) == IF f.type = 0 THEN << <<0, f.ampbits>> >> ELSE << <<0, 1>> >>
 \* residue: number of partitions to read and classification words
 PartVals(r, halfblock, nch) == LET mx == IF r.type = 2 THEN halfblock * nch ELSE halfblock
                                    en == IF r.end < mx THEN r.end ELSE mx
@@ -119,7 +127,7 @@ Decouple(vals, cp, i) ==
            nv == [j \in 1..Len(vals) |-> [x \in 1..Len(vals[j]) |-> IF j = M THEN CoupleBin(vals[M][x], vals[A][x])[1] ELSE IF j = A THEN CoupleBin(vals[M][x], vals[A][x])[2] ELSE vals[j][x]]]
        IN Decouple(nv, cp, i - 1)
 
-(* ---- a whole packet: per-channel floor flags, any number of submaps (spec 4.3.2 - 4.3.5; floor 1 only) ---- *)
+(* ---- a whole packet: per-channel floor flags, any number of submaps, floor 0 or 1 (spec 4.3.2 - 4.3.5) ---- *)
 SubmapOf(m, c) == IF m.submaps > 1 THEN m.mux[c] ELSE 0                               \* channel c (1-based) -> submap (0-based)
 BundleOf(s, m, sm) == SelectSeq([c \in 1..s.ch |-> c], LAMBDA c : SubmapOf(m, c) = sm)   \* the channels of a submap in order
 \* which channels decode residue: those whose floor is in use, spread over the coupling steps in order ("nonzero vector propagate")
@@ -134,7 +142,7 @@ FullPacket(s, mode, lw, nw, salt, fl) ==
       dec == Decoded(s, m, fl)
   IN << <<0, 1>>, <<mode, ILog(Len(s.modes) - 1)>> >> \o
      (IF s.modes[mode + 1].bf = 1 THEN << <<lw, 1>>, <<nw, 1>> >> ELSE <<>>) \o
-     Cat([c \in 1..s.ch |-> IF fl[c] = 1 THEN Floor1Bits(s, s.floors[m.sfloor[SubmapOf(m, c) + 1] + 1], salt + c) ELSE << <<0, 1>> >>]) \o
+     Cat([c \in 1..s.ch |-> LET f == s.floors[m.sfloor[SubmapOf(m, c) + 1] + 1] IN IF fl[c] = 1 THEN FloorBits(s, f, salt + c) ELSE FloorUnused(f)]) \o
      Cat([sm1 \in 1..m.submaps |->
        LET B == BundleOf(s, m, sm1 - 1)  r == s.residues[m.sres[sm1] + 1]  nd == Cardinality({ b \in 1..Len(B) : dec[B[b]] })
        IN ResidueBits(s, r, half, Len(B), IF r.type = 2 THEN (IF nd > 0 THEN 1 ELSE 0) ELSE nd, salt + 100 * (sm1 - 1))])
